@@ -137,6 +137,8 @@ def check(ctx):
         for f in ("%255f", "%256.3f", "%-257e", "%0300g", "%1000.2f", "%.255f", "%.256e", "%.300g", "%#.257g", "%300.299f"):
             script.append("Pd %s n n %s" % (fmt([ord(c) for c in f]), fmt(dbits(x)))); n += 1
     ctx.extra["calls"] = n
+    # re-entrant use: a sample of the calls once more with an output callback that itself formats through the engine
+    script = [x for ln in script for x in ([ln, "Pdn" + ln[2:]] if ln.startswith("Pd ") and ctx.rng.random() < 0.08 else [ln])]
     t = ctx.drive(drv, script, "pfloat")
     bad = ctx.judge("PrintfFloatTrace", [t])
     for b in bad: b["driver"] = "drv_printf"
@@ -156,7 +158,7 @@ def replay(ctx, path):
     e = d["event"]
     if e.get("e") == "Fault":
         return core.replay_fault(ctx, d, drv, "PrintfFloatTrace", path)
-    line = "Pd %s %s %s %s" % (fmt(e["fmt"]), "n" if e["ws"] == -9999 else e["ws"], "n" if e["ps"] == -9999 else e["ps"], fmt(e["dbl"]))
+    line = ("Pdn" if e.get("nested") else "Pd") + " %s %s %s %s" % (fmt(e["fmt"]), "n" if e["ws"] == -9999 else e["ws"], "n" if e["ps"] == -9999 else e["ps"], fmt(e["dbl"]))
     t = ctx.drive(drv, ["R", line], "replay")
     ctx.report(ctx.judge("PrintfFloatTrace", [t]))
     return ctx.finish(rule="replay of " + path)
